@@ -191,6 +191,13 @@ impl<const N: usize> SlotManager<N> {
         segment_size: u32,
         firmware_segments: u32,
     ) -> Result<(), ManagerError<T::Error>> {
+        // A header cannot represent a zero or oversized segment size / count
+        if segment_size == 0 || segment_size > MAX_SEGMENT_SIZE as u32 {
+            return Err(ManagerError::SegmentsTooLarge);
+        }
+        if firmware_segments == 0 || firmware_segments > MAX_SEGMENTS as u32 {
+            return Err(ManagerError::TooManySegments);
+        }
         // First sanity check: Is this a feasible size?
         let Ok(mds_u32) = u32::try_from(self.max_data_size()) else {
             // Only happens if we were created with a segment size > u32::MAX
